@@ -26,6 +26,8 @@ ASSUMPTIONS = [
     'the oracle is the current tree\'s own answer for the same op in an otherwise idle hash-seed-0 process: results being *right* is not checked',
     'memory addresses inside messages and id()-derived t_<id> aliases are renamed before comparison',
     'the op hit by an injected abort / MemoryError / RecursionError is not judged; every other op is',
+    'a tree that the caller shares between renders (tree histories, twin scenarios) must render the same as a fresh tree; a tree handed to the planner is the planner\'s to consume and its reuse is not judged',
+    'the statements that age a process before a capacity-directed run (fresh names / constants) are not judged; prehistory ops of aged-process runs are',
     'no network, disk or clock faults: the library has none of these (DESIGN §1)',
     'free-threaded (no-GIL) CPython builds are out of scope',
 ]
